@@ -498,8 +498,8 @@ func (b *Bridge) after(in *hub.Instance, g *bridgeGhost, op engine.Op, pre *view
 				// have nobody to be returned to: they simply stay pending
 				// ... and so does a transfer whose refund cannot be issued because governance took its token off the
 				// originating chain's list (it is refunded once the token is listed again)
-				if t := b.tokenByExt(ch, e.Token.ExternalTokenId); t != nil && g.Delisted[e.RefundChainId+"|"+t.Denom] {
-					continue
+				if t := b.tokenByExt(ch, e.Token.ExternalTokenId); t != nil && (g.Delisted[e.RefundChainId+"|"+t.Denom] || g.Delisted[ch+"|"+t.Denom]) {
+					continue // ... or its own token is off the list: there is no denom to refund in
 				}
 				if e.RefundChainId != "" && int64(e.CreatedAt)+b.timeoutDur() < now {
 					b.v(st, "C12", "overdue_transfer_not_refunded", "refundExpiredTxs", "%s/%d created at %d is still in the pool after the EndBlocker at %d (timeout %d s)", ch, e.Id, e.CreatedAt, now, b.timeoutDur())
